@@ -34,6 +34,10 @@ impl Show for Tok { fn show(&self) -> String { format!("T{}", self.id) } }
 impl Show for str { fn show(&self) -> String { format!("{self}") } }
 impl Show for String { fn show(&self) -> String { format!("{self}") } }
 impl Show for u8 { fn show(&self) -> String { format!("{self}") } }
+impl Show for u16 { fn show(&self) -> String { format!("{self}") } }
+impl Show for u32 { fn show(&self) -> String { format!("{self}") } }
+impl<T: Show> Show for [T] { fn show(&self) -> String { format!("[{}]", self.iter().map(|x| x.show()).collect::<Vec<_>>().join(",")) } }
+impl<T: Show + ?Sized> Show for &mut T { fn show(&self) -> String { format!("&mut {}", (**self).show()) } }
 impl Show for i32 { fn show(&self) -> String { format!("{self}") } }
 impl Show for () { fn show(&self) -> String { "()".into() } }
 impl<T: Show + ?Sized> Show for &T {
@@ -69,6 +73,9 @@ impl<A: Show, B: Show, C: Show, D: Show> Show for (A, B, C, D) {
     fn addrs(&self, out: &mut Vec<usize>) { self.0.addrs(out); self.1.addrs(out); self.2.addrs(out); self.3.addrs(out); }
 }
 
+/// rendering without method auto-deref: shows exactly the referent of `x`
+pub fn sh<T: Show + ?Sized>(x: &T) -> String { x.show() }
+
 /// run f; Ok(rendering) or Err(panic message)
 pub fn observe<R>(f: impl FnOnce() -> R, render: impl FnOnce(&R) -> String) -> Result<String, String> {
     match catch_unwind(AssertUnwindSafe(f)) {
@@ -89,4 +96,32 @@ pub fn emit(case: &str, fields: Vec<(&str, String)>) {
 }
 pub fn res_json(r: &Result<String, String>) -> String {
     match r { Ok(s) => format!("{{\"ok\":{}}}", jstr(s)), Err(e) => format!("{{\"panic\":{}}}", jstr(e)) }
+}
+
+thread_local! {
+    pub static MLOG: std::cell::RefCell<Vec<Vec<String>>> = const { std::cell::RefCell::new(Vec::new()) };
+    pub static ALOG: std::cell::RefCell<Vec<Vec<String>>> = const { std::cell::RefCell::new(Vec::new()) };
+}
+/// called from matcher guards: records what the matcher saw, accepts
+pub fn rec_m(v: Vec<String>) -> bool { MLOG.with(|l| l.borrow_mut().push(v)); true }
+/// called from answer / real functions
+pub fn rec_a(v: Vec<String>) { ALOG.with(|l| l.borrow_mut().push(v)); }
+pub fn take_m() -> Vec<Vec<String>> { MLOG.with(|l| std::mem::take(&mut *l.borrow_mut())) }
+pub fn take_a() -> Vec<Vec<String>> { ALOG.with(|l| std::mem::take(&mut *l.borrow_mut())) }
+pub fn log_len() -> usize { MLOG.with(|l| l.borrow().len()) + ALOG.with(|l| l.borrow().len()) }
+pub fn jlog(v: &Vec<Vec<String>>) -> String { serde_json::to_string(v).unwrap() }
+pub fn jlist(v: &Vec<String>) -> String { serde_json::to_string(v).unwrap() }
+
+/// minimal executor: the futures of mocked methods never suspend
+pub fn block_on<F: std::future::Future>(f: F) -> F::Output {
+    use std::task::{Context, Poll as P, Wake, Waker};
+    struct W;
+    impl Wake for W { fn wake(self: std::sync::Arc<Self>) {} }
+    let waker = Waker::from(std::sync::Arc::new(W));
+    let mut cx = Context::from_waker(&waker);
+    let mut f = std::pin::pin!(f);
+    for _ in 0..1000 {
+        if let P::Ready(v) = f.as_mut().poll(&mut cx) { return v; }
+    }
+    panic!("future did not complete");
 }
